@@ -3,6 +3,7 @@ macro, with its attributes) of the source files a property's model was written f
 whitespace and `#[cfg(test)] mod … { }` blocks do not count.  `gen/pins.json` (written by tools/repin.py when
 a source state is accepted as the one the models describe) lists, per property and file, the items and their
 digests; gen/extractors/pins.py recomputes them from the current tree on every run."""
+import functools
 import hashlib
 import os
 import re
@@ -42,6 +43,45 @@ def items(path):
     return {k: hashlib.sha256(v.encode()).hexdigest()[:15] for k, v in item_texts(path).items()}
 
 
+SLICE = " @@ "
+
+
+def slice_name(item, start, end):
+    """name of a slice pin: the part of `item` from the first occurrence of `start` up to (not including) the
+    first occurrence of `end` after it; the markers are compared with all whitespace removed"""
+    return f"{item}{SLICE}{start} ... {end}"
+
+
+def slice_digest(texts, name):
+    """digest of a slice pin, or None when the item or one of its markers is gone"""
+    item, rng = name.split(SLICE, 1)
+    start, end = rng.split(" ... ", 1)
+    text = texts.get(item)
+    if text is None:
+        return None
+    t = "".join(text.split())
+    i = t.find("".join(start.split()))
+    if i < 0:
+        return None
+    j = t.find("".join(end.split()), i + 1)
+    if j < 0:
+        return None
+    return hashlib.sha256(t[i:j].encode()).hexdigest()[:15]
+
+
+def digests(path, names):
+    """{name: digest or None} for plain item names and slice names"""
+    texts = item_texts(path)
+    res = {}
+    for n in names:
+        if SLICE in n:
+            res[n] = slice_digest(texts, n)
+        else:
+            res[n] = hashlib.sha256(texts[n].encode()).hexdigest()[:15] if n in texts else None
+    return res
+
+
+@functools.lru_cache(maxsize=None)
 def item_texts(path):
     """{name: normalised text} of the top-level items of a Rust file"""
     src = strip(open(path, encoding="utf-8").read())
